@@ -48,6 +48,8 @@ type Result struct {
 	Tables []*refbin.SymTab
 	Decls  []refbin.TableDecl
 	IVMs   int
+	// ValueMaxIDs[i] is the max_id of the table in force at user value i.
+	ValueMaxIDs []int
 }
 
 // Options configure parsing.
@@ -124,6 +126,7 @@ func Parse(data []byte, opt Options) (res *Result, err error) {
 			continue
 		}
 		p.res.Values = append(p.res.Values, v)
+		p.res.ValueMaxIDs = append(p.res.ValueMaxIDs, p.tab.MaxID())
 	}
 }
 
